@@ -292,6 +292,25 @@ def int_constraint(path, term, lo=0, hi=None):
     return a, b
 
 
+def feasible(path):
+    """cheap infeasibility filter: the comparisons a path makes of one *unsigned* quantity (a remainder, a length)
+    with integer constants must be jointly satisfiable"""
+    seen = set()
+    for c, v in cond_facts(path):
+        while c[0] == 'un' and c[1] == 'Not':
+            c = c[2]
+        if c[0] == 'op' and c[1] in ('Lt', 'Le', 'Gt', 'Ge', 'Eq', 'Ne'):
+            for x, k in ((c[2], c[3]), (c[3], c[2])):
+                if k[0] == 'int' and x not in seen:
+                    unsigned = (x[0] == 'op' and x[1] == 'Rem') or (x[0] == 'ret' and path['events'][x[1]].get('name') in ('len', 'max_len')) or (k[2] if len(k) > 2 else '') in ('usize', 'u8', 'u16', 'u32', 'u64')
+                    if unsigned:
+                        seen.add(x)
+                        lo, hi = int_constraint(path, x)
+                        if lo > hi:
+                            return False
+    return True
+
+
 # ---------------------------------------------------------------- printing
 def short(t, d=0):
     if not isinstance(t, tuple):
